@@ -25,6 +25,13 @@ let rec length = function
 | [] -> O
 | _ :: l' -> S (length l')
 
+(** val app : 'a1 list -> 'a1 list -> 'a1 list **)
+
+let rec app l m =
+  match l with
+  | [] -> m
+  | a :: l1 -> a :: (app l1 m)
+
 type comparison =
 | Eq
 | Lt
@@ -620,6 +627,12 @@ let rec map f = function
 | [] -> []
 | a :: t -> (f a) :: (map f t)
 
+(** val flat_map : ('a1 -> 'a2 list) -> 'a1 list -> 'a2 list **)
+
+let rec flat_map f = function
+| [] -> []
+| x :: t -> app (f x) (flat_map f t)
+
 (** val fold_left : ('a1 -> 'a2 -> 'a1) -> 'a2 list -> 'a1 -> 'a1 **)
 
 let rec fold_left f l a0 =
@@ -824,6 +837,11 @@ let m_reflect =
 
 let m_mirror =
   Zpos (XI XH)
+
+(** val m_constant : z **)
+
+let m_constant =
+  Zpos (XO (XO XH))
 
 (** val clamp : z -> z -> z **)
 
@@ -1351,3 +1369,142 @@ let row_fast mode row w garbage =
 let row_spec mode row w =
   conv_spec_all mode { shape = ((zlen row) :: []); data = row } { shape =
     ((zlen w) :: []); data = w }
+
+(** val gather : z -> arr -> arr -> z -> z list -> z list **)
+
+let gather mode f bc cval p =
+  flat_map (fun e ->
+    match retrieve mode f p (fst e) with
+    | Some v -> v :: []
+    | None -> if Z.eqb mode extendConstant then cval :: [] else [])
+    (entries true bc)
+
+(** val insert : z -> z list -> z list **)
+
+let rec insert x l = match l with
+| [] -> x :: []
+| y :: t -> if Z.leb x y then x :: l else y :: (insert x t)
+
+(** val isort : z list -> z list **)
+
+let rec isort = function
+| [] -> []
+| x :: t -> insert x (isort t)
+
+(** val rank_at : z -> arr -> arr -> z -> z list -> z option **)
+
+let rank_at mode f bc rank p =
+  let n2 = zlen (entries true bc) in
+  if (||) (Z.ltb rank Z0) (Z.geb rank n2)
+  then None
+  else let s = gather mode f bc Z0 p in
+       let n0 = zlen s in
+       let currank = if Z.eqb n0 n2 then rank else Z.quot (Z.mul n0 rank) n2
+       in
+       Some (nthZ Z0 (isort s) currank)
+
+(** val rank_filter : z -> arr -> arr -> z -> z list -> z list **)
+
+let rank_filter mode f bc rank garbage =
+  map (fun ip ->
+    match rank_at mode f bc rank (snd ip) with
+    | Some v -> v
+    | None -> nthZ Z0 garbage (fst ip))
+    (combine (zseq Z0 (Z.to_nat (size f.shape))) (all_positions f.shape))
+
+(** val median_rank : arr -> z **)
+
+let median_rank bc =
+  Z.div (sumZ bc.data) (Zpos (XO XH))
+
+(** val mean_at : z -> arr -> arr -> z list -> z * z **)
+
+let mean_at mode f bc p =
+  fold_left (fun sn e ->
+    match retrieve mode f p (fst e) with
+    | Some v -> ((Z.add (fst sn) v), (snd sn))
+    | None ->
+      if Z.eqb mode extendConstant
+      then ((Z.add (fst sn) Z0), (snd sn))
+      else ((fst sn), (Z.sub (snd sn) (Zpos XH)))) (entries true bc) (Z0,
+    (zlen (entries true bc)))
+
+(** val mean_filter : z -> arr -> arr -> (z * z) list **)
+
+let mean_filter mode f bc =
+  map (mean_at mode f bc) (all_positions f.shape)
+
+(** val wrapd : dt -> z -> z **)
+
+let wrapd d x =
+  match d with
+  | DBool -> if Z.eqb x Z0 then Z0 else Zpos XH
+  | DInt t -> wrap t x
+
+(** val tm_at : dt -> z -> arr -> arr -> z list -> z **)
+
+let tm_at d mode f t p =
+  fold_left (fun diff2 e ->
+    match retrieve mode f p (fst e) with
+    | Some v ->
+      let tj = snd e in
+      let delta = wrapd d (if Z.gtb v tj then Z.sub v tj else Z.sub tj v) in
+      wrapd d (Z.add diff2 (Z.mul delta delta))
+    | None -> diff2) (entries false t) Z0
+
+(** val template_match : dt -> z -> arr -> arr -> z list **)
+
+let template_match d mode f t =
+  map (tm_at d mode f t) (all_positions f.shape)
+
+(** val window_eq : arr -> arr -> z -> z -> bool **)
+
+let window_eq f t y x =
+  forallb (fun k -> Z.eqb (aget f (padd (y :: (x :: [])) k)) (aget t k))
+    (all_positions t.shape)
+
+(** val find2d : arr -> arr -> z list **)
+
+let find2d f t =
+  let n0 = nthZ Z0 f.shape Z0 in
+  let n1 = nthZ Z0 f.shape (Zpos XH) in
+  let t0 = nthZ Z0 t.shape Z0 in
+  let t1 = nthZ Z0 t.shape (Zpos XH) in
+  map (fun p ->
+    let y = nthZ Z0 p Z0 in
+    let x = nthZ Z0 p (Zpos XH) in
+    if (&&) ((&&) (Z.leb y (Z.sub n0 t0)) (Z.leb x (Z.sub n1 t1)))
+         (window_eq f t y x)
+    then Zpos XH
+    else Z0) (all_positions f.shape)
+
+(** val samples_spec : z -> arr -> arr -> z list -> z list **)
+
+let samples_spec mode f bc p =
+  flat_map (fun k ->
+    if Z.eqb (aget bc k) Z0
+    then []
+    else (match border_pos mode f.shape (padd p (psub k (centre bc.shape))) with
+          | Some q -> (aget f q) :: []
+          | None -> if Z.eqb mode m_constant then Z0 :: [] else []))
+    (all_positions bc.shape)
+
+(** val count_lt : z -> z list -> z **)
+
+let count_lt x l =
+  zlen (filter (fun y -> Z.ltb y x) l)
+
+(** val count_le : z -> z list -> z **)
+
+let count_le x l =
+  zlen (filter (fun y -> Z.leb y x) l)
+
+(** val ssd_spec : z -> arr -> arr -> z list -> z **)
+
+let ssd_spec mode f t p =
+  sumZ
+    (map (fun k ->
+      match border_pos mode f.shape (padd p (psub k (centre t.shape))) with
+      | Some q ->
+        Z.mul (Z.sub (aget f q) (aget t k)) (Z.sub (aget f q) (aget t k))
+      | None -> Z0) (all_positions t.shape))
